@@ -405,6 +405,19 @@ func (w world) RunCase(t *tape.Tape, st *super.Stats) *super.Violation {
 		g.Focus = 1 + t.Draw(genxpath.NumFuncs())
 		first = false
 		inc("reach:case_with_focus_function")
+		if t.Coin() {
+			// a custom function registered before any client exists (registration concurrent with lookups is not
+			// part of the property; registration beforehand is what a program with plugins does): expressions
+			// calling it compile only through the constructors that allow custom functions
+			xpath.RegisterCustomFunctions([]xpath.CustomFunctionInfo{{
+				Name:          "custom-fn",
+				FnPtr:         func(args []xpath.Datum) xpath.Datum { return xpath.NewLiteralDatum("custom") },
+				Args:          []xpath.DatumTypeChecker{xpath.TypeIsLiteral},
+				RetType:       xpath.TypeIsLiteral,
+				DefaultRetVal: xpath.NewLiteralDatum(""),
+			}})
+			inc("reach:custom_function_registered")
+		}
 		if t.Rare(4) {
 			// every compilation of the case is a call of the focus function on literals from a tiny pool of
 			// look-alike strings (see genxpath.CollisionCall)
@@ -528,6 +541,9 @@ func (w world) RunCase(t *tape.Tape, st *super.Stats) *super.Violation {
 					// the same text (same grammar) as an earlier compilation of the case, under another prefix map
 					prev := compiled[t.Draw(len(compiled))]
 					o.expr, o.gram = prev.expr, prev.gram
+					if t.Coin() && o.gram < 4 {
+						o.gram ^= 1 // the sibling constructor: with / without custom functions allowed
+					}
 					o.mapMode = []int{1, 3}[t.Draw(2)]
 					if o.mapMode == prev.mapMode {
 						o.mapMode = 4 - prev.mapMode
